@@ -529,23 +529,140 @@ def check_use_sites(prog: Program, rep: Report) -> None:
                            "the rate inserted for a unit must be the table entry with that unit's index")
 
 
+def pairwise_balance(fn: ast.FunctionDef) -> Optional[Dict[str, int]]:
+    """
+    Linear bookkeeping of the pairwise derivatives p = self._potential.derivative(..) computed in a function: for every
+    accumulator (a scalar sum or a table filled index by index, or a list built by a comprehension) the net coefficient with which
+    each p enters it, however the accumulation is written (`+=` in the loop that computes p, a list of the p's consumed by a
+    second loop or a comprehension, `0.0 - p`, ...).  None if the function computes no pairwise derivative in a loop.
+    """
+    env: Dict[str, int] = {}       # names that hold (a multiple of) one p
+    acc: Dict[str, int] = {}       # accumulators / tables: net coefficient
+    lists: Dict[str, int] = {}     # lists of p's (sources): name -> coefficient
+    consumed: Set[str] = set()
+    tables: Set[str] = set()
+    found = [False]
+
+    def is_p(e: ast.AST) -> bool:
+        return isinstance(e, ast.Call) and norm(e.func) == "self._potential.derivative"
+
+    def lin(e: ast.AST, local: Dict[str, int]) -> Optional[int]:
+        if is_p(e):
+            found[0] = True
+            return 1
+        if isinstance(e, ast.Name):
+            return local.get(e.id, env.get(e.id))
+        if isinstance(e, ast.Constant) and isinstance(e.value, (int, float)) and e.value == 0:
+            return 0
+        if isinstance(e, ast.UnaryOp) and isinstance(e.op, ast.USub):
+            v = lin(e.operand, local)
+            return None if v is None else -v
+        if isinstance(e, ast.BinOp) and isinstance(e.op, (ast.Add, ast.Sub)):
+            x, y = lin(e.left, local), lin(e.right, local)
+            if x is None or y is None:
+                return None
+            return x + y if isinstance(e.op, ast.Add) else x - y
+        return None
+
+    def base_name(t: ast.AST) -> Optional[str]:
+        if isinstance(t, ast.Name):
+            return t.id
+        if isinstance(t, ast.Subscript) and isinstance(t.value, ast.Name):
+            return t.value.id
+        return None
+
+    def bind_loop(target: ast.AST, it: ast.AST, local: Dict[str, int]) -> None:
+        """loop variable over a list of p's holds one p (with the list's coefficient)"""
+        src_ = it
+        pos = None
+        if isinstance(it, ast.Call) and norm(it.func) == "enumerate" and it.args:
+            src_, pos = it.args[0], 1
+        if isinstance(it, ast.Call) and norm(it.func) == "zip":
+            for k, a_ in enumerate(it.args):
+                if isinstance(a_, ast.Name) and a_.id in lists and isinstance(target, ast.Tuple) and k < len(target.elts) \
+                        and isinstance(target.elts[k], ast.Name):
+                    local[target.elts[k].id] = lists[a_.id]
+                    consumed.add(a_.id)
+            return
+        if isinstance(src_, ast.Name) and src_.id in lists:
+            consumed.add(src_.id)
+            t = target.elts[pos] if pos is not None and isinstance(target, ast.Tuple) else target
+            if isinstance(t, ast.Name):
+                local[t.id] = lists[src_.id]
+
+    def run(stmts: List[ast.stmt]) -> None:
+        for st in stmts:
+            if isinstance(st, ast.Assign) and len(st.targets) == 1:
+                t, v = st.targets[0], st.value
+                if isinstance(v, (ast.ListComp, ast.GeneratorExp)) or (isinstance(v, ast.Call) and norm(v.func) in ("list", "tuple") and v.args
+                                                                         and isinstance(v.args[0], (ast.ListComp, ast.GeneratorExp))):
+                    comp = v if isinstance(v, (ast.ListComp, ast.GeneratorExp)) else v.args[0]
+                    local: Dict[str, int] = {}
+                    for g in comp.generators:
+                        bind_loop(g.target, g.iter, local)
+                    c = lin(comp.elt, local)
+                    if c is not None and isinstance(t, ast.Name) and (c != 0 or any(is_p(x) for x in ast.walk(comp.elt))):
+                        lists[t.id] = c
+                    continue
+                c = lin(v, {})
+                if isinstance(t, ast.Name) and c is not None and not (isinstance(v, ast.Constant)):
+                    env[t.id] = c
+                elif isinstance(t, ast.Subscript) and base_name(t) and c is not None and c != 0:
+                    acc[base_name(t)] = acc.get(base_name(t), 0) + c   # table[i] = p  (each slot written once)
+                    tables.add(base_name(t))
+                continue
+            if isinstance(st, ast.AugAssign) and isinstance(st.op, (ast.Add, ast.Sub)):
+                c = lin(st.value, {})
+                n_ = base_name(st.target)
+                if c and n_:
+                    acc[n_] = acc.get(n_, 0) + (c if isinstance(st.op, ast.Add) else -c)
+                    if isinstance(st.target, ast.Subscript):
+                        tables.add(n_)
+                continue
+            if isinstance(st, ast.For):
+                local = {}
+                bind_loop(st.target, st.iter, local)
+                saved = dict(env)
+                env.update(local)
+                run(st.body)
+                for k in local:
+                    env.pop(k, None)
+                    if k in saved:
+                        env[k] = saved[k]
+                continue
+            for fld in ("body", "orelse", "finalbody"):
+                b_ = getattr(st, fld, None)
+                if isinstance(b_, list) and b_ and isinstance(b_[0], ast.stmt):
+                    run(b_)
+    run(body_without_docstring(fn))
+    if not found[0]:
+        return None
+    out = dict(acc)
+    for k, c in lists.items():
+        if k not in consumed:
+            out[k] = out.get(k, 0) + c
+            tables.add(k)
+    if not tables:
+        return None   # only a scalar sum: no per-unit table is filled here (nothing for a lifting scheme to see)
+    return {k: c for k, c in out.items() if c != 0}
+
+
 def check_antisymmetry(prog: Program, rep: Report) -> None:
     for mi, ci, fn in prog.functions():
         if ci is None or not prog.is_subclass(ci, "EventHandler"):
             continue
-        for loop in [n for n in ast.walk(fn) if isinstance(n, ast.For)]:
-            pair = [s for s in loop.body if isinstance(s, ast.Assign) and isinstance(s.targets[0], ast.Name)
-                    and isinstance(s.value, ast.Call) and norm(s.value.func) == "self._potential.derivative"]
-            for p in pair:
-                v = p.targets[0].id
-                plus = [s for s in loop.body if isinstance(s, ast.AugAssign) and isinstance(s.op, ast.Add) and norm(s.value) == v]
-                minus = [s for s in loop.body if isinstance(s, ast.AugAssign) and isinstance(s.op, ast.Sub) and norm(s.value) == v]
-                other = [s for s in loop.body if isinstance(s, ast.AugAssign) and v in norm(s.value) and s not in plus and s not in minus]
-                ok = len(plus) == 1 and len(minus) == 1 and not other and isinstance(minus[0].target, ast.Subscript)
-                rep.ob("R5.5-antisymmetric-table", ok, Loc(mi.file, p.lineno, f"{ci.name}.{fn.name}"), p,
-                       f"a pairwise derivative must be added once to the active side ({[norm(s) for s in plus]}) and subtracted once "
-                       f"from the partner's table entry ({[norm(s) for s in minus]}) in the same loop body: the table the lifting "
-                       f"scheme sees sums to zero only by this construction")
+        in_loop = any(isinstance(c, ast.Call) and norm(c.func) == "self._potential.derivative"
+                      for lp in ast.walk(fn) if isinstance(lp, (ast.For, ast.ListComp, ast.GeneratorExp)) for c in ast.walk(lp))
+        if not in_loop:
+            continue
+        bal = pairwise_balance(canon(prog, ci, fn, helpers=False))
+        if bal is None:
+            continue
+        coefs = sorted(bal.values())
+        rep.ob("R5.5-antisymmetric-table", coefs == [-1, 1], Loc(mi.file, fn.lineno, f"{ci.name}.{fn.name}"),
+               f"{ci.name}.{fn.name}: pairwise derivatives enter {bal}",
+               f"every pairwise derivative must be added once to the active side and subtracted once from the partner's table entry "
+               f"(net coefficients +1 and -1): the table the lifting scheme sees sums to zero only by this construction; found {bal}")
 
 
 def check_purity(prog: Program, rep: Report, roles: LiftRoles) -> None:
